@@ -4,7 +4,7 @@ import random
 import engine
 import prop
 import streams
-from common import sub_seed
+from common import sub_seed, size
 
 THEOREMS = ["LNN.C08_every_object_numbered",
             "LNN.C08_numbers_injective",
@@ -26,7 +26,7 @@ FACETS = {"bounds", "reported"}
 
 
 def run(rep, tier, seed):
-    n = 200 if tier == "quick" else 4000
+    n = size(tier, 200, 4000)
     cases = [prop.gen_c08_case(random.Random(sub_seed(seed, "c08", k))) for k in range(n)]
     recs = engine.run_cases("prop", "run_c08", cases, chunksize=2)
     for r, c in zip(recs, cases):
